@@ -21,9 +21,20 @@ def ostr(m):
 # stream 1: one model, expanded; every parameter value and sweep
 
 
+_EXTRA = {
+    # blocks that refill ONE persistent buffer in create_S (the expansion must not cache it by identity)
+    "CWA": dict(gen=lambda r, ints: {"wl": 1.0 + r.randint(0, 64) / 64.0}, make=lambda a: lk.CWA(3, 10.0),
+                kw=lambda a: {"wl": a["wl"]}),
+    "FPR": dict(gen=lambda r, ints: {"wl": 1.0 + r.randint(0, 64) / 64.0}, make=lambda a: lk.FPR(2, 3, 50.0, 2.0, 2.0),
+                kw=lambda a: {"wl": a["wl"]}),
+}
+
+
 def _blocks():
     import c09
-    return c09.BLOCKS
+    B = dict(c09.BLOCKS)
+    B.update(_EXTRA)
+    return B
 
 
 def make_base(d):
